@@ -1431,6 +1431,11 @@ add_seen(ndtr_t *tr, ndnd_t *nd)
 static inline bool
 chkpntedp(uid_t u)
 {
+	if (ichkpnts >= countof(chkpnts)) {
+		/* the list is full, users that came after that were not put
+		 * on it, anybody may have unsaved changes */
+		return true;
+	}
 	if (NEDTRIE_FIND(ndtr_t, &chkpntr, &(ndnd_t){.key = u}) != NULL) {
 		return true;
 	}
